@@ -435,14 +435,6 @@ impl Schema {
             let extensions = extensions.clone();
 
             asynk_strim::stream_fn(|mut yielder| async move {
-                let subscription = match schema.subscription_root() {
-                    Ok(subscription) => subscription,
-                    Err(err) => {
-                        yielder.yield_item(Response::from_errors(vec![err])).await;
-                        return;
-                    }
-                };
-
                 let (env, _) = match prepare_request(
                     extensions,
                     request.inner,
@@ -469,6 +461,15 @@ impl Schema {
                         .await;
                     return;
                 }
+
+                // only a subscription operation needs the subscription root
+                let subscription = match schema.subscription_root() {
+                    Ok(subscription) => subscription,
+                    Err(err) => {
+                        yielder.yield_item(Response::from_errors(vec![err])).await;
+                        return;
+                    }
+                };
 
                 let ctx = env.create_context(
                     &schema.0.env,
